@@ -685,3 +685,111 @@ def sign_sweep(job):
     if final["stale"] and outs:
         outs[-1][1]["stale"] = outs[-1][1]["stale"] or final["stale"]
     return outs
+
+
+# ---------------------------------------------------------------------------------------------
+# extras (coverage backlog beyond the listed properties)
+# ---------------------------------------------------------------------------------------------
+def graph_build(job):
+    """job: {"n", "kind", "src", "a", "list"} -> `graphbuild` record"""
+    lib = L()
+    G = lib.graph.Graph
+    n, kind = job["n"], job["kind"]
+    rec = {"op": "graphbuild", "n": n, "kind": kind, "src": job.get("src", 0), "a": job.get("a", 0), "list": job.get("list", []), "exc": "",
+           "rows": [], "count": -1, "edges": [], "circ": 0, "gates": []}
+    try:
+        if kind == "empty":
+            g = G(n)
+        elif kind == "full":
+            g = G.fully_connected(n)
+        elif kind == "star":
+            g = G.star(n, job["a"])
+        elif kind == "linear":
+            g = G.linear(n)
+        elif kind == "cycle":
+            g = G.cycle(n)
+        elif kind == "pusteblume":
+            g = G.pusteblume(n)
+        else:
+            g = G.decompress(n, job["src"])
+            if kind == "add_path":
+                g.add_path(list(job["list"]))
+            elif kind == "add_star":
+                g.add_star(list(job["list"]))
+            elif kind == "remove_all_edges_to":
+                g.remove_all_edges_to(job["a"])
+            elif kind == "clear":
+                g.clear()
+        rec["rows"] = impl.graph_rows(g)
+        rec["count"] = int(g.edge_count())
+        rec["edges"] = [[int(a), int(b)] for a, b in g.get_edges()]
+        try:
+            rec["gates"] = impl.gates_of(g.to_circuit())
+            rec["circ"] = 1
+        except Exception as e:
+            rec["circ_exc"] = exc_name(e)
+    except Exception as e:
+        rec["exc"] = exc_name(e) + ": " + str(e)[:100]
+    return rec
+
+
+def rotate(job):
+    """job: {"n", "circuit": gates, "tkind": circuit|stab, "tprog", "tcodes", "inplace"} -> `rotate` record"""
+    lib = L()
+    n = job["n"]
+    rec = {"op": "rotate", "n": n, "circuit": job["circuit"], "tkind": job["tkind"], "tprog": job.get("tprog", []), "tcodes": job.get("tcodes", []),
+           "inplace": 1 if job["inplace"] else 0, "outcome": "raise", "result": [], "inputafter": [], "exc": ""}
+    qc = impl.circuit_from_gates(n, job["circuit"])
+    rec["circuit"] = impl.gates_of(qc)
+    try:
+        target = impl.circuit_from_gates(n, job["tprog"]) if job["tkind"] == "circuit" else stab_from_codes(n, job["tcodes"])
+        if job["tkind"] == "circuit":
+            rec["tprog"] = impl.gates_of(target)
+        res = lib.rotate_stabilizer_into_state.rotate_stabilizer_into_state(qc, target, inplace=bool(job["inplace"]))
+        rec["result"] = impl.gates_of(res)
+        rec["outcome"] = "return"
+    except Exception as e:
+        rec["exc"] = exc_name(e)
+    rec["inputafter"] = impl.gates_of(qc)
+    return rec
+
+
+def synth(job):
+    lib = L()
+    n, codes = job
+    rec = {"op": "synth", "n": n, "codes": codes, "outcome": "raise", "gates": [], "exc": ""}
+    try:
+        strs = []
+        for c in codes:
+            s = impl.code_to_str(c, n, "always")
+            strs.append(s[0] + s[1:][::-1])          # qiskit convention: qubit 0 is the LAST character
+        qc = lib.rotate_stabilizer_into_state.synth_circuit_from_stabilizers(strs)
+        rec["gates"] = impl.gates_of(qc)
+        rec["outcome"] = "return"
+    except Exception as e:
+        rec["exc"] = exc_name(e)
+    return rec
+
+
+def same_state(job):
+    lib = L()
+    n, c1, c2 = job
+    q1, q2 = impl.circuit_from_gates(n, c1), impl.circuit_from_gates(n, c2)
+    rec = {"op": "same", "n": n, "c1": impl.gates_of(q1), "c2": impl.gates_of(q2), "answer": -1, "exc": ""}
+    try:
+        rec["answer"] = 1 if lib.rotate_stabilizer_into_state.do_prepare_same_state(q1, q2) else 0
+    except Exception as e:
+        rec["exc"] = exc_name(e)
+    return rec
+
+
+def parse_text(job):
+    lib = L()
+    n, text, expected, wellformed = job
+    rec = {"op": "parse", "n": n, "text": text, "expected": expected, "wellformed": wellformed, "outcome": "raise", "gates": [], "exc": ""}
+    try:
+        rec["gates"] = impl.gates_of(lib.circuit_lookup.parse_circuit(n, text))
+        rec["outcome"] = "return"
+    except Exception as e:
+        rec["exc"] = exc_name(e)
+    return rec
